@@ -229,7 +229,8 @@ def _check_stable(ctx, A, what):
 def lev_pd_case(draw):
     kf = draw(k_family())
     p = len(kf["k"]["re"])
-    q = draw(st.one_of(st.integers(1, p), st.sampled_from([1, p, max(1, p - 1), max(1, p // 2)])))
+    # every order 0..p (order 0: no coefficient, P = r0), the ends over-weighted
+    q = draw(st.one_of(st.integers(0, p), st.sampled_from([1, p, max(1, p - 1), max(1, p // 2), 0])))
     forms = ["array", "array", "list"] + (["complex-dtype"] if kf["k"]["im"] is None else [])
     return {"k": kf["k"], "fam": kf["fam"], "r0": draw(st.sampled_from(R0S)), "q": q,
             "form": draw(st.sampled_from(forms)), "order_arg": draw(st.sampled_from(["none", "p"]))}
